@@ -344,9 +344,11 @@ func (r *router) NotFound(handlers ...Handler) {
 }
 
 func (r *router) ServeHTTP(w http.ResponseWriter, req *http.Request) {
+	simYield(1)
 	// Fast path for static routes
 	leaf, ok := r.staticRoutes[req.Method][req.URL.Path]
 	if ok {
+		simYield(2)
 		leaf.Handler()(w, req, route.Params{
 			"route": leaf.Route(),
 		})
@@ -360,6 +362,7 @@ func (r *router) ServeHTTP(w http.ResponseWriter, req *http.Request) {
 	}
 
 	leaf, params, ok := routeTree.Match(req.URL.Path, req.Header)
+	simYield(2)
 	if !ok {
 		r.notFound(w, req)
 		return
